@@ -6,9 +6,6 @@ void ir_throw(void);
 int __cxa_atexit(void (*f)(void*), void* a, void* d) { (void)f; (void)a; (void)d; return 0; }
 uint8_t* _Znwm(uint64_t n) { return malloc(n ? n : 1); }
 uint8_t* _Znam(uint64_t n) { return malloc(n ? n : 1); }
-void _ZdlPv(uint8_t* p) { (void)p; }
-void _ZdaPv(uint8_t* p) { (void)p; }
-void _ZdlPvm(uint8_t* p, uint64_t n) { (void)p; (void)n; }
 void __cxa_pure_virtual(void) { abort(); }
 uint8_t* __cxa_allocate_exception(uint64_t n) { (void)n; ir_throw(); return 0; }
 void __cxa_throw(uint8_t* a, uint8_t* b, uint8_t* c) { (void)a; (void)b; (void)c; ir_throw(); }
